@@ -83,6 +83,10 @@ U_C06 ==
     \* context-sensitive regexes: what precedes the search buffer must not matter
     \cup {DataDecl(md, w, {81, 90, 1}, 5) : md \in RegexModes("QnotZ"), w \in {-1, 2, 3}}
     \cup {DataDecl(md, w, {88, 1}, 5) : md \in RegexModes("caretX"), w \in {-1, 2}}
+    \* the delimited field first, so that what precedes it is not part of the packet
+    \cup {DeclO(DefaultOpts, <<DataF("d", md), U1("post")>>, {81, 90, 1}, 4) : md \in RegexModes("QnotZ")}
+    \cup {DeclO(DefaultOpts, <<DataF("d", md), U1("post")>>, {88, 1}, 4) : md \in RegexModes("caretX") \cup RegexModes("Xplus")}
+    \cup {DeclO([DefaultOpts EXCEPT !.sbl = w], <<DataF("d", md), U1("post")>>, {0, 1, 65}, 4) : md \in MarkerModes(<<0>>), w \in {-1, 2}}
     \* the same field one level down, after a header byte of the outer packet
     \cup {DeclP([C0 |-> Class(DefaultOpts, <<U1("h"), RefF("s", "C1"), U1("t")>>),
                  C1 |-> Class([DefaultOpts EXCEPT !.sbl = w], <<U1("pre"), DataF("d", md), U1("post")>>)],
@@ -234,8 +238,8 @@ U_C01_Ctl == {d \in U_C08_Count : d.prog["C0"].fields[3].count \in {SzField("n")
 \* overlapping placements: two fields that may consume common bytes
 U_C01_Overlap == {DeclP([C0 |-> Class(DefaultOpts, <<U1("a"), DataF("b", SzConst(2)),
                                                     MvField(DataF("c", SzField("a")), [kind |-> "at", arg |-> g, ref |-> "innermost-pkt"]),
-                                                    MvField(U1("d"), [kind |-> "at", arg |-> SzConst(1), ref |-> "begins"])>>)],
-                        {0, 1, 2, 46}, 5, {0}) : g \in {SzConst(0), SzConst(2), SzConst(3), SzConst(4)}}
+                                                    MvField(U1("d"), [kind |-> "at", arg |-> SzConst(h), ref |-> "begins"])>>)],
+                        {0, 1, 2, 46}, 5, {0}) : g \in {SzConst(0), SzConst(2), SzConst(3), SzConst(4)}, h \in {1, 3, 5}}
 U_C01_Before == {DeclP([C0 |-> Class(DefaultOpts, <<MvField(DataF("a", SzConst(n1)), [kind |-> "at", arg |-> SzConst(p1), ref |-> "innermost-pkt"]),
                                                      MvField(DataF("b", SzConst(n2)), [kind |-> "at", arg |-> SzConst(p2), ref |-> "innermost-pkt"])>>)],
                        {0, 1, 46}, 6, {0, 1}) : n1 \in {1, 2}, p1 \in {2, 4}, n2 \in {1, 3, 4}, p2 \in {0, 1, 2}}
@@ -259,7 +263,9 @@ NoRawCallable(d) == NoRawCallable0(d)
 U_C14 == {d \in U_C01 \cup U_C06 : NoBegins(d) /\ NoRawCallable(d)}
 IsScan(d) == d.prog["C0"].fields[2].k = "Data" /\ d.prog["C0"].fields[2].size.m \in {"marker", "regex"}
 U_C14_Q == {d \in {e \in U_C01_Data : e.prog["C0"].opts.endian = "none"} \cup U_C01_Before \cup U_C10_Back \cup U_C08_Nest
+                   \cup {e \in U_C10_Flat : e.prog["C0"].fields[2].mv.kind = "shift"}
                    \cup {e \in U_C08_Until : e.prog["C0"].fields[2].aligned = 0 /\ e.prog["C0"].fields[2].when = NoCond}
+                   \cup {e \in U_C06 : Len(e.prog["C0"].fields) = 2 /\ e.prog["C0"].fields[1].k = "Data"}
                    \cup {e \in U_C06 : Len(e.prog["C0"].fields) = 3 /\ IsScan(e) /\ e.prog["C0"].fields[2].size.consume
                                         /\ e.prog["C0"].opts.sbl \in (IF e.prog["C0"].fields[2].size.m = "regex" THEN {-1} ELSE {-1, 2})} :
                NoBegins(d) /\ NoRawCallable(d)}
